@@ -7,7 +7,7 @@ from .c01 import r7_mirror
 
 PID = "C03"
 META = {
-    "explanation": "Static state-coherence analysis of the cursor code on the MIR of the current tree: every cached block is stored together with the offset it was loaded from (PAIR/DOM), absolute moves never reuse positional state (FLOW on return expressions), reset clears every mutable field, clones share nothing (SIG), every block load is preceded by an absolute seek whose operand comes from an index entry or the root offset. These are necessary conditions of history independence; the exhaustive (state x operation) behaviour is not decided.",
+    "explanation": "Static state-coherence analysis of the cursor code on the MIR of the current tree: every cached block is stored together with the offset it was loaded from (PAIR/DOM), absolute moves never reuse positional state (FLOW on return expressions), reset clears every mutable field, clones share nothing (SIG), every block load is preceded by an absolute seek whose operand comes from an index entry or the root offset. These are necessary conditions of history independence; the exhaustive (state x operation) behaviour is not decided. The property quantifies over files this Writer emits: the shared file-wellformedness rules (rules/shared.py) and the rest of the cursor-traversal rules are re-run as necessary conditions.",
     "assumptions": ["block offsets are unique per file (an offset identifies one block)", "std Option/Vec semantics"],
 }
 
@@ -23,6 +23,9 @@ def run(ck):
         ck.guard("C03-R6", r6_current, ck, F)
         ck.guard("C03-R7", r7_seek_load, ck, F)
         ck.guard("C03-R5", r7_mirror, ck, F, "C03-R5")
+        from . import shared
+        shared.file_wellformed(ck, F, "C03-R8")
+        shared.cursor_traversal(ck, F, "C03-R5")
     if ck.tier == "thorough" or True:
         from . import witness
         ck.guard("C03-R4", witness.run, ck, "C03")
